@@ -1,7 +1,7 @@
 """Property -> rules table."""
 from __future__ import annotations
 
-from . import bounds, coalitions, evaluation, game, gameplay, generators, gym, normalize, norms, regret, save, shapley, solvers, wiring
+from . import bounds, coalitions, evaluation, game, gameplay, generators, gym, hygiene, normalize, norms, regret, save, shapley, solvers, wiring
 
 _NOTE = ("Static analysis of /repo's current source (Python ast, own name resolution, provenance terms, "
          "path-sensitive walks). Decides the structural necessary conditions listed; does not observe numeric behaviour.")
@@ -9,59 +9,59 @@ _NOTE = ("Static analysis of /repo's current source (Python ast, own name resolu
 _SITE_RULE = "one obligation per (rule, site); a site is non-trivial when the rule matched a real construct of the repository"
 
 PROPERTIES: dict[str, dict] = {
-    "C01": {"title": "Superadditive bounds always contain the true game", "rules": [bounds.rule_bounds, coalitions.rule_e_enum, coalitions.rule_k3_operators, game.rule_c17_columns, game.rule_c17_compute_and_state, wiring.rule_known_coalitions],
+    "C01": {"title": "Superadditive bounds always contain the true game", "rules": [bounds.rule_bounds, coalitions.rule_e_enum, coalitions.rule_k3_operators, game.rule_c17_columns, game.rule_c17_compute_and_state, wiring.rule_known_coalitions, hygiene.rule_no_module_state, hygiene.rule_dtypes],
             "explanation": _NOTE + " C01: abstract interpretation of both superadditive computers in the coalition-class domain: "
             "B1 write discipline, B2 coverage, B3 size order, B4 fresh reads, B5 phase order, B6s/B7s soundness shape of the recurrences, B10 relation-table agreement; E-enum completeness of the sub/super enumerations; G1 column discipline of the getters/setters the computers use.",
             "rule": _SITE_RULE},
-    "C02": {"title": "Superadditive bounds are tight", "rules": [bounds.rule_bounds, coalitions.rule_e_enum, coalitions.rule_k3_operators, game.rule_c17_columns],
+    "C02": {"title": "Superadditive bounds are tight", "rules": [bounds.rule_bounds, coalitions.rule_e_enum, coalitions.rule_k3_operators, game.rule_c17_columns, hygiene.rule_no_module_state, hygiene.rule_dtypes, game.rule_c17_compute_and_state],
             "explanation": _NOTE + " C02: B6 lower = MAX over exactly all proper non-empty sub-coalitions, B7 upper = MIN over exactly all known proper supersets, B3 order, E-enum completeness of the enumeration helpers in both representations.",
             "rule": _SITE_RULE},
-    "C03": {"title": "Cached and reference computers interchangeable", "rules": [bounds.rule_bounds, coalitions.rule_e_enum, coalitions.rule_k3_operators],
+    "C03": {"title": "Cached and reference computers interchangeable", "rules": [bounds.rule_bounds, coalitions.rule_e_enum, coalitions.rule_k3_operators, hygiene.rule_no_module_state, hygiene.rule_dtypes, game.rule_c17_compute_and_state],
             "explanation": _NOTE + " C03: B8 term-equality of the two normalised write schedules, B9 cache hygiene (pure, keyed by n, never mutated by callers), B10 relation-table agreement, REG-B registry/CLI selection.",
             "rule": _SITE_RULE},
-    "C04": {"title": "Approximate SAM bounds", "rules": [bounds.rule_bounds, coalitions.rule_e_enum, coalitions.rule_k1_k2],
+    "C04": {"title": "Approximate SAM bounds", "rules": [bounds.rule_bounds, coalitions.rule_e_enum, coalitions.rule_k1_k2, hygiene.rule_no_module_state, hygiene.rule_dtypes, game.rule_c17_getters, game.rule_c17_compute_and_state, game.rule_c17_columns],
             "explanation": _NOTE + " C04: B1/B2/B5 on the SAM computer, B11a phase guard, B11b monotone closure, B11c upper recurrence, B12 registry bindings and repetition range.",
             "rule": _SITE_RULE},
-    "C05": {"title": "Exploitability = summed best-case Shapley gain", "rules": [shapley.rule_c05_exploitability, shapley.rule_c06_shapley, coalitions.rule_k3_operators, coalitions.rule_e_enum],
+    "C05": {"title": "Exploitability = summed best-case Shapley gain", "rules": [shapley.rule_c05_exploitability, shapley.rule_c06_shapley, coalitions.rule_k3_operators, coalitions.rule_e_enum, hygiene.rule_no_module_state, hygiene.rule_dtypes],
             "explanation": _NOTE + " C05: X1 bound selection of the max-gain game (vector/scalar sibling agreement, polarity), X2 player pairing and aggregation, X3 = the Shapley rules S1-S6.",
             "rule": _SITE_RULE},
-    "C06": {"title": "Shapley value", "rules": [shapley.rule_c06_shapley, coalitions.rule_k3_operators, coalitions.rule_e_enum],
+    "C06": {"title": "Shapley value", "rules": [shapley.rule_c06_shapley, coalitions.rule_k3_operators, coalitions.rule_e_enum, hygiene.rule_no_module_state, hygiene.rule_dtypes],
             "explanation": _NOTE + " C06: S1 weights s!(n-s-1)! over range(n) as integer linear forms, S2 entry-point agreement, S3 coefficient index, S4 with/without pairing, S5 summand direction and n! divisor, S6 domain.",
             "rule": _SITE_RULE},
-    "C07": {"title": "More information never hurts", "rules": [bounds.rule_bounds, norms.rule_n1_gap_registry, shapley.rule_c05_exploitability, shapley.rule_c06_shapley],
+    "C07": {"title": "More information never hurts", "rules": [bounds.rule_bounds, norms.rule_n1_gap_registry, shapley.rule_c05_exploitability, shapley.rule_c06_shapley, hygiene.rule_no_module_state, hygiene.rule_dtypes, gym.rule_c09_reset, gym.rule_c09_step, gym.rule_c09_typestate, gym.rule_episode_state_reset, game.rule_c17_compute_and_state],
             "explanation": _NOTE + " C07: B13 knowledge polarity of every candidate set in all registered computers; N1 gap-function registry (names, partials, ord) and lp_norm shape; N2 gap polarity of exploitability (upper bounds enter through coalitions with the player, lower bounds without, factorial weights) via X1/X2/S1-S6.",
             "rule": _SITE_RULE},
-    "C08": {"title": "Bounds depend only on current knowledge", "rules": [bounds.rule_bounds, gym.rule_h3_undo, gym.rule_c09_typestate, game.rule_c17_copy_neg_init, game.rule_c17_columns, game.rule_c17_compute_and_state, solvers.rule_c13_pairing_readonly],
+    "C08": {"title": "Bounds depend only on current knowledge", "rules": [bounds.rule_bounds, gym.rule_h3_undo, gym.rule_c09_typestate, game.rule_c17_copy_neg_init, game.rule_c17_columns, game.rule_c17_compute_and_state, solvers.rule_c13_pairing_readonly, hygiene.rule_no_module_state, hygiene.rule_dtypes, gym.rule_episode_state_reset],
             "explanation": _NOTE + " C08: B1-B5 for all six registered computers, H1 no hidden state.",
             "rule": _SITE_RULE},
-    "C09": {"title": "The reveal-one-coalition environment", "rules": [gym.rule_c09_typestate, gym.rule_c09_step, gym.rule_c09_spaces, gym.rule_c09_reset, gym.rule_c09_done, gym.rule_h3_undo, gym.rule_episode_state_reset, wiring.rule_env_factory, wiring.rule_known_coalitions, normalize.rule_m1, normalize.rule_m2345, game.rule_c17_columns, game.rule_c17_getters, game.rule_c17_copy_neg_init, game.rule_c17_compute_and_state],
+    "C09": {"title": "The reveal-one-coalition environment", "rules": [gym.rule_c09_typestate, gym.rule_c09_step, gym.rule_c09_spaces, gym.rule_c09_reset, gym.rule_c09_done, gym.rule_h3_undo, gym.rule_episode_state_reset, wiring.rule_env_factory, wiring.rule_known_coalitions, normalize.rule_m1, normalize.rule_m2345, game.rule_c17_columns, game.rule_c17_getters, game.rule_c17_copy_neg_init, game.rule_c17_compute_and_state, hygiene.rule_no_module_state, hygiene.rule_dtypes, normalize.rule_m6_stale_views],
             "explanation": _NOTE + " C09: T1 recompute-before-observe typestate, Y1 reveal pairing, Y2 index-space agreement, Y3 reset order/aliasing, Y4 explorable set, Y5 reward sign, D1 done predicate, H3 undo pairing.",
             "rule": _SITE_RULE},
-    "C10": {"title": "Every offered generator runs and yields a game of its class", "rules": [generators.rule_nsig, generators.rule_nint, generators.rule_nrng, generators.rule_next_nfac, wiring.rule_graph_game, coalitions.rule_k1_k2, coalitions.rule_k3_operators],
+    "C10": {"title": "Every offered generator runs and yields a game of its class", "rules": [generators.rule_nsig, generators.rule_nint, generators.rule_nrng, generators.rule_next_nfac, wiring.rule_graph_game, coalitions.rule_k1_k2, coalitions.rule_k3_operators, hygiene.rule_no_module_state, hygiene.rule_dtypes],
             "explanation": _NOTE + " C10: N-sig registry exhaustiveness against the call convention, N-int NumPy-integer flow into int-dispatching operands (sinks derived from isinstance tests), N-rng RNG-source discipline of every reachable generator function.",
             "rule": _SITE_RULE},
-    "C11": {"title": "Exhaustive search", "rules": [evaluation.rule_p1_pool_api, gameplay.rule_c11_worker, gameplay.rule_p4_paired, gameplay.rule_c11_best_states, gameplay.rule_l1_lazy_reuse, wiring.rule_known_coalitions],
+    "C11": {"title": "Exhaustive search", "rules": [evaluation.rule_p1_pool_api, gameplay.rule_c11_worker, gameplay.rule_p4_paired, gameplay.rule_c11_best_states, gameplay.rule_l1_lazy_reuse, wiring.rule_known_coalitions, hygiene.rule_no_module_state, hygiene.rule_dtypes],
             "explanation": _NOTE + " C11: P1 order-preserving pool API, P2 worker purity + T1 recompute-before-gap, P3 enumeration shape, P4 paired get_values/set_known_values arguments, P5 best-states selection, P9 meta-game, L1 single-use iterator reuse (path-sensitive, package-wide).",
             "rule": _SITE_RULE},
-    "C12": {"title": "evaluate() records true trajectories; independent of parallelism", "rules": [evaluation.rule_c12_recording, evaluation.rule_p1_pool_api, evaluation.rule_c12_rng, wiring.rule_solve_wiring, wiring.rule_env_factory, gym.rule_c09_step],
+    "C12": {"title": "evaluate() records true trajectories; independent of parallelism", "rules": [evaluation.rule_c12_recording, evaluation.rule_p1_pool_api, evaluation.rule_c12_rng, wiring.rule_solve_wiring, wiring.rule_env_factory, gym.rule_c09_step, hygiene.rule_no_module_state, hygiene.rule_dtypes, gym.rule_episode_state_reset, gym.rule_c09_reset],
             "explanation": _NOTE + " C12: Q1 recording order/positions/keys in eval_one, Q2 task tuples and stacking in evaluate, P1 order-preserving pool API, Q3 RNG-ownership analysis across the task boundary (shared and process-global RNG state).",
             "rule": _SITE_RULE},
-    "C13": {"title": "Built-in solvers", "rules": [solvers.rule_c13_pairing_readonly, solvers.rule_c13_validity, solvers.rule_c13_choice, solvers.rule_c13_expected_greedy, solvers.rule_c13_registry, gym.rule_h3_undo, gym.rule_c09_typestate, gameplay.rule_c11_worker],
+    "C13": {"title": "Built-in solvers", "rules": [solvers.rule_c13_pairing_readonly, solvers.rule_c13_validity, solvers.rule_c13_choice, solvers.rule_c13_expected_greedy, solvers.rule_c13_registry, gym.rule_h3_undo, gym.rule_c09_typestate, gameplay.rule_c11_worker, hygiene.rule_no_module_state, hygiene.rule_dtypes, gym.rule_episode_state_reset],
             "explanation": _NOTE + " C13: V1 step/unstep pairing on all paths, V2 read-only use of the env, V3 returned action drawn from the mask-filtered list, V4 choice rules (extremum polarity, first match), V5 expected greedy (argmin over games axis, append+remove, curve row), REG-S registry.",
             "rule": _SITE_RULE},
-    "C14": {"title": "Regret minimiser", "rules": [regret.rule_r1_index_spaces, regret.rule_r1_coalition_args, regret.rule_r2_save_load, regret.rule_r345, coalitions.rule_k3_operators],
+    "C14": {"title": "Regret minimiser", "rules": [regret.rule_r1_index_spaces, regret.rule_r1_coalition_args, regret.rule_r2_save_load, regret.rule_r345, coalitions.rule_k3_operators, hygiene.rule_no_module_state, hygiene.rule_dtypes],
             "explanation": _NOTE + " C14: R1 index-space typing (allocation space must contain every index space used on the array; spaces COAL/PID/MID/RANK/RM derived from size expressions and provenance), R2 save/load agreement, R3 plus-clipping order, R4 fallback support, R5 ordering of coalition sets.",
             "rule": _SITE_RULE},
-    "C15": {"title": "Normalisation", "rules": [normalize.rule_m1, normalize.rule_m2345, wiring.rule_graph_game],
+    "C15": {"title": "Normalisation", "rules": [normalize.rule_m1, normalize.rule_m2345, wiring.rule_graph_game, hygiene.rule_no_module_state, hygiene.rule_dtypes, normalize.rule_m6_stale_views],
             "explanation": _NOTE + " C15: M1 cancellation-guarded division (exact-zero vs tolerance guard on a cancellation-derived divisor), M2 norm-info before mutation, M3 inverse agreement and tuple order, M4 view contract of the getters, M5 dispatch exhaustiveness.",
             "rule": _SITE_RULE},
-    "C16": {"title": "The size-aggregated environment", "rules": [gym.rule_c16, gym.rule_c09_step, gym.rule_c09_spaces, gym.rule_episode_state_reset],
+    "C16": {"title": "The size-aggregated environment", "rules": [gym.rule_c16, gym.rule_c09_step, gym.rule_c09_spaces, gym.rule_episode_state_reset, hygiene.rule_no_module_state, hygiene.rule_dtypes],
             "explanation": _NOTE + " C16: Z1 aggregation of every observation/mask, Z2 candidate set = size AND mask, Z3 pass-through, Z4 sizes aligned with the inner explorable list.",
             "rule": _SITE_RULE},
-    "C17": {"title": "An incomplete game object is a faithful map", "rules": [game.rule_c17_columns, game.rule_c17_getters, game.rule_c17_copy_neg_init, game.rule_c17_writers, game.rule_c17_compute_and_state, gameplay.rule_l1_lazy_reuse],
+    "C17": {"title": "An incomplete game object is a faithful map", "rules": [game.rule_c17_columns, game.rule_c17_getters, game.rule_c17_copy_neg_init, game.rule_c17_writers, game.rule_c17_compute_and_state, gameplay.rule_l1_lazy_reuse, hygiene.rule_no_module_state, hygiene.rule_dtypes],
             "explanation": _NOTE + " C17: G1 column discipline, G2 guarded getters, G3 masked bulk setters, G4 copy/negation, G5 who-may-write _values, G6 view escape, G7 reset order, G8 reveal/unreveal preconditions.",
             "rule": _SITE_RULE},
-    "C18": {"title": "Coalitions are finite sets; predicates match definitions", "rules": [coalitions.rule_k3_operators, coalitions.rule_e_enum, coalitions.rule_k1_k2],
+    "C18": {"title": "Coalitions are finite sets; predicates match definitions", "rules": [coalitions.rule_k3_operators, coalitions.rule_e_enum, coalitions.rule_k1_k2, hygiene.rule_no_module_state, hygiene.rule_dtypes],
             "explanation": _NOTE + " C18: K3 bit-set algebra - the bitwise expression of every Coalition operator is normalised to its truth table and compared with the set-theoretic specification (decides the operator for all inputs); E-enum completeness-by-construction of the sub/super enumerations in both representations; K1/K2 predicate shape and orientation.",
             "rule": _SITE_RULE},
     "C19": {
